@@ -309,6 +309,13 @@ def family(name, quick=True):
         for (nw, n, r, d, f) in grid:
             out.append(("fanout(nw=%d,n=%d,retry=%s,delay=%s,fail=%d)" % (nw, n, r, d, f),
                         fanout(nw, n, r, d, f, timeout=100), []))
+    elif name == "wait_queue":
+        # a one-worker step whose running invocation suspends in wait_for_event (or fails into a delayed retry) while another
+        # input waits in its queue: the freed slot goes to the queued input
+        wq = waiter_shared_id()
+        wq["steps"]["p"]["nw"] = 1
+        out.append(("waiter_queue(nw=1)", wq, [("Resp", None)]))
+        out.append(("retry_queue(nw=1)", fanout(1, 2, 2, 5, 1), []))
     elif name == "collect_equal":
         # a repeated-type expected list filled with EQUAL-VALUED events (three identical votes): each is an event of its own
         for nw in (1,):           # (overlapping collecting invocations have their own recorded finding)
